@@ -67,13 +67,14 @@ mod verif_kani {
     }
 
     /// ANY well-formed dense storage with at most 3 elements over indices < N_IDX (all orders of the dense array)
-    fn any_dense() -> (DenseVecStorage<u16>, [Option<u16>; 4]) {
+    fn any_dense() -> (DenseVecStorage<u16>, [Option<u16>; 4]) { any_dense_b(3, N_IDX as usize) }
+    fn any_dense_b(max_n: usize, max_len: usize) -> (DenseVecStorage<u16>, [Option<u16>; 4]) {
         let mut s = DenseVecStorage::<u16>::default();
         let mut model: [Option<u16>; 4] = [None; 4];
         let n: usize = kani::any();
-        kani::assume(n <= 3);
+        kani::assume(n <= max_n);
         let len: usize = kani::any();
-        kani::assume(len <= N_IDX as usize);
+        kani::assume(len <= max_len);
         s.data_id.reserve(N_IDX as usize);
         // SAFETY: MaybeUninit elements need no initialisation; capacity reserved above
         unsafe { s.data_id.set_len(len) };
@@ -177,6 +178,25 @@ mod verif_kani {
         dense_invariant(&s, &model);
         check_all(&s, &model);
         step(&mut s, &mut model);
+        dense_invariant(&s, &model);
+    }
+
+    /// the same step from every well-formed state with at most 2 elements over indices < 3 (fast enough for the quick tier)
+    #[kani::proof]
+    #[kani::unwind(6)]
+    fn dense_step_small() {
+        let (mut s, mut model) = any_dense_b(2, 3);
+        dense_invariant(&s, &model);
+        let id: u32 = kani::any();
+        kani::assume(id < 3);
+        let op: u8 = kani::any();
+        kani::assume(op < 2);
+        match (op, model[id as usize]) {
+            (0, None) => { let v: u16 = kani::any(); unsafe { s.insert(id, v) }; model[id as usize] = Some(v); }
+            (1, Some(v)) => { let got = unsafe { s.remove(id) }; assert!(got == v); model[id as usize] = None; }
+            _ => {}
+        }
+        check_all(&s, &model);
         dense_invariant(&s, &model);
     }
 
